@@ -10,6 +10,8 @@
 #ifndef CHAISCRIPT_THREADING_HPP_
 #define CHAISCRIPT_THREADING_HPP_
 
+#include <atomic>
+#include <cstddef>
 #include <unordered_map>
 
 #ifndef CHAISCRIPT_NO_THREADS
@@ -58,29 +60,39 @@ namespace chaiscript::detail::threading {
   template<typename T>
   class Thread_Storage {
   public:
-    Thread_Storage() = default;
+    Thread_Storage()
+        : m_key(next_key()) {
+    }
     Thread_Storage(const Thread_Storage &) = delete;
     Thread_Storage(Thread_Storage &&) = delete;
     Thread_Storage &operator=(const Thread_Storage &) = delete;
     Thread_Storage &operator=(Thread_Storage &&) = delete;
 
-    ~Thread_Storage() { t().erase(this); }
+    ~Thread_Storage() { t().erase(m_key); }
 
-    inline const T *operator->() const noexcept { return &(t()[this]); }
+    inline const T *operator->() const noexcept { return &(t()[m_key]); }
 
-    inline const T &operator*() const noexcept { return t()[this]; }
+    inline const T &operator*() const noexcept { return t()[m_key]; }
 
-    inline T *operator->() noexcept { return &(t()[this]); }
+    inline T *operator->() noexcept { return &(t()[m_key]); }
 
-    inline T &operator*() noexcept { return t()[this]; }
+    inline T &operator*() noexcept { return t()[m_key]; }
 
-    void *m_key;
+    /// Identifies this storage in every thread's map. It is unique for the lifetime of the process: the
+    /// address of the object is not, and the destructor can only erase the entry of the thread that runs it,
+    /// so a later object at the same address must not find what other threads still hold for the old one
+    const std::size_t m_key;
 
   private:
+    static std::size_t next_key() noexcept {
+      static std::atomic<std::size_t> s_last_key{0};
+      return ++s_last_key;
+    }
+
     /// todo: is it valid to make this noexcept? The allocation could fail, but if it
     /// does there is no possible way to recover
-    static std::unordered_map<const void *, T> &t() noexcept {
-      static thread_local std::unordered_map<const void *, T> my_t;
+    static std::unordered_map<std::size_t, T> &t() noexcept {
+      static thread_local std::unordered_map<std::size_t, T> my_t;
       return my_t;
     }
   };
